@@ -108,7 +108,8 @@ class World:
         return [slots[r][1] for r in g.ranks]
 
 
-_PATCHED = ["is_available", "is_initialized", "get_world_size", "get_rank", "get_backend", "all_gather",
+_PATCHED = ["is_available", "is_initialized", "get_world_size", "get_rank", "get_backend", "get_global_rank",
+            "get_group_rank", "all_gather",
             "gather", "all_gather_object", "gather_object", "broadcast_object_list"]
 
 
@@ -187,6 +188,19 @@ class Sim:
         dist.get_world_size = lambda group=None: (len(G(group).ranks) if W.rank() in G(group).ranks else -1)
         dist.get_rank = lambda group=None: grp_rank(group)
         dist.get_backend = lambda group=None: "gloo"
+
+        def get_global_rank(group, group_rank):
+            g = G(group)
+            if not 0 <= group_rank < len(g.ranks):
+                raise ValueError(f"Group rank {group_rank} is not part of group {g}")
+            return g.ranks[group_rank]
+
+        def get_group_rank(group, global_rank):
+            g = G(group)
+            if global_rank not in g.ranks:
+                raise not_in_group(global_rank, g)
+            return g.ranks.index(global_rank)
+        dist.get_global_rank, dist.get_group_rank = get_global_rank, get_group_rank
         dist.all_gather, dist.gather = all_gather, gather
         dist.all_gather_object, dist.gather_object = all_gather_object, gather_object
         dist.broadcast_object_list = broadcast_object_list
